@@ -112,7 +112,7 @@ class C04(core.Check):
                                        'means:align', 'means:created-zone', 'order:ascending', 'order:descending',
                                        'order:interleaved', 'overlap:non-adjacent', 'expect:REJECT', 'expect:ACCEPT',
                                        'output:bin', 'output:nobin', 'output:both', 'window-excludes-the-overlap',
-                                       'means:macro-with-non-byte-steps', 'means:global-relative-org']}
+                                       'means:macro-with-non-byte-steps', 'means:global-relative-org', 'unselected-origin-before-bytes']}
 
     def build(self, rng, items, means_list=None, order=None, mute=None, out_mode=None):
         """items: [(addr, len)]"""
@@ -124,6 +124,11 @@ class C04(core.Check):
             val = 0x11 * (i + 1) if l or True else 0
             ls, zs, ds, used = place(rng, i, a, l, means, val)
             tags.add('means:' + used)
+            if ls and rng.random() < 0.25:
+                # an origin / zone switch inside a branch that is not compiled, between the placement and the bytes it places
+                dead = rng.choice(['.org 0', '.org 1', '.memzone GLOBAL', '.org 2 "GLOBAL"', '.org 29'])
+                ls = ls[:-1] + [{'k': 'comment', 'text': rng.choice(['#if 0', '#ifdef C04_NOT_DEFINED', '#if 1\n#else']) + '\n' + dead + '\n#endif'}] + ls[-1:]
+                tags.add('unselected-origin-before-bytes')
             blocks.append(ls)
             zones += zs
             data += ds
